@@ -44,13 +44,13 @@ def sh(cmd, cwd, timeout=900, env=ENV):
         return 124, (e.stdout or b"").decode(errors="replace") + "\nTIMEOUT"
 
 
-def plan(files):
+def plan(files, ops2=False, plan_name="plan.jsonl"):
     os.makedirs(V + "/out/mutants", exist_ok=True)
     sh("go build -o /verif/out/mutgen .", V + "/tools/mutgen")
     n = 0
-    with open(V + "/out/mutants/plan.jsonl", "w") as out:
+    with open(V + "/out/mutants/" + plan_name, "w") as out:
         for f in files:
-            rc, txt = sh("/verif/out/mutgen -file /repo/%s -list" % f, V)
+            rc, txt = sh("/verif/out/mutgen %s -file /repo/%s -list" % ("-ops2" if ops2 else "", f), V)
             for line in txt.splitlines():
                 if not line.startswith("{"):
                     continue
@@ -58,7 +58,9 @@ def plan(files):
                 if LOGRE.search(p["desc"]):
                     continue
                 p["file"] = f
-                p["id"] = "%s#%d" % (f, p["n"])
+                p["id"] = "%s#%s%d" % (f, "s" if ops2 else "", p["n"])
+                if ops2:
+                    p["ops2"] = True
                 out.write(json.dumps(p) + "\n")
                 n += 1
     print(n, "mutants planned")
@@ -82,8 +84,8 @@ def suite(repo):
     return bad
 
 
-def run(worker, of, limit, survivors_of=None, res_name="results.jsonl"):
-    plan_ = [json.loads(l) for l in open(V + "/out/mutants/plan.jsonl")]
+def run(worker, of, limit, survivors_of=None, res_name="results.jsonl", plan_name="plan.jsonl"):
+    plan_ = [json.loads(l) for l in open(V + "/out/mutants/" + plan_name)]
     if survivors_of:
         # second pass: only the mutants that survived an earlier pass, against the current checks
         keep = {json.loads(l)["id"] for l in open(V + "/out/mutants/" + survivors_of) if json.loads(l)["status"] == "survived"}
@@ -108,7 +110,7 @@ def run(worker, of, limit, survivors_of=None, res_name="results.jsonl"):
             path = os.path.join(repo, p["file"])
             sh("git checkout -- .", repo)
             # the original comes from the worker's own clean tree: /repo may carry a seeded patch meanwhile
-            rc, out = sh("/verif/out/mutgen -file %s -apply %d -out %s.mut && mv %s.mut %s" % (path, p["n"], path, path, path), "/")
+            rc, out = sh("/verif/out/mutgen %s -file %s -apply %d -out %s.mut && mv %s.mut %s" % ("-ops2" if p.get("ops2") else "", path, p["n"], path, path, path), "/")
             if rc != 0:
                 r["status"] = "mutgen-error"
             else:
@@ -184,9 +186,9 @@ if __name__ == "__main__":
         return args[args.index(name) + 1] if name in args else default
     if cmd == "plan":
         fs = opt("--files")
-        plan(fs.split(",") if fs else list(FILES))
+        plan(fs.split(",") if fs else list(FILES), "--ops2" in args, opt("--plan", "plan.jsonl"))
     elif cmd == "run":
-        run(int(opt("--worker", "0")), int(opt("--of", "1")), int(opt("--limit", "0")), opt("--survivors-of"), opt("--results", "results.jsonl"))
+        run(int(opt("--worker", "0")), int(opt("--of", "1")), int(opt("--limit", "0")), opt("--survivors-of"), opt("--results", "results.jsonl"), opt("--plan", "plan.jsonl"))
     elif cmd == "one":
         one(args[0], args[1:])
     elif cmd == "report":
